@@ -186,3 +186,273 @@ Proof. intros e c w k. apply run_cmd_nopanic. Qed.
 
 Corollary no_panic_run : forall h a, snd (fst (step a (run h w_empty))) <> OPanic.
 Proof. intros h a. apply no_panic. Qed.
+
+(* ================================================================== *)
+(** * 2. A refused command has written nothing *)
+
+Theorem refused_unchanged_generic : forall a w w' tr,
+  step a w = (w', OErr, tr) -> tr = [] -> w' = w.
+Proof.
+  intros a w w' tr Hstep Htr. pose proof (step_trace a w w' OErr tr Hstep) as Hw.
+  destruct a as [e c|u].
+  - subst tr. exact Hw.
+  - cbn [step] in Hstep. inversion Hstep.
+Qed.
+
+(* ---------- loading ---------- *)
+(* [load_ctx] only reads: whatever it answers, the state is the one it got *)
+Lemma load_ctx_pure : forall s, snd (load_ctx s) = s.
+Proof. intro s. rewrite load_ctx_eq. reflexivity. Qed.
+
+Definition loaded (w : world) (x : ctx) : Prop :=
+  load_ctx (mkMS w [] None) = (Ok x, mkMS w [] None).
+
+Lemma loaded_ctx_of : forall w x, loaded w x <-> ctx_of w = Some x.
+Proof.
+  intros w x. unfold loaded. rewrite load_ctx_eq. cbn [ms_w]. split.
+  - intro H. destruct (ctx_of w); [injection H as ->; reflexivity | discriminate H].
+  - intros ->. reflexivity.
+Qed.
+
+(* how every refusal below reaches [step] *)
+Lemma step_refused : forall e c w x,
+  c <> CInit -> w_inited w = true -> loaded w x ->
+  dispatch e c x (mkMS w [] None) = (Err, mkMS w [] None) ->
+  step (ACmd e c) w = (w, OErr, []).
+Proof.
+  intros e c w x Hc Hi Hx Hd. apply loaded_ctx_of in Hx.
+  rewrite (step_loaded e c w x Hc Hi Hx), Hd. reflexivity.
+Qed.
+
+(* ---------- not initialised / initialised twice / nothing loads ---------- *)
+Theorem not_inited_refused : forall e c w,
+  c <> CInit -> w_inited w = false -> step (ACmd e c) w = (w, OErr, []).
+Proof. intros e c w Hc Hi. apply step_not_loaded; auto. Qed.
+
+Theorem init_twice_refused : forall e w,
+  w_inited w = true -> step (ACmd e CInit) w = (w, OErr, []).
+Proof.
+  intros e w Hi. rewrite step_cmd_eq, run_cmd_eq. unfold cmd_init.
+  rewrite ev_bind_getw, ev_bind_guard. cbn [ms_w]. rewrite Hi. reflexivity.
+Qed.
+
+Theorem load_failure_refused : forall e c w,
+  c <> CInit -> fst (load_ctx (mkMS w [] None)) = Err -> step (ACmd e c) w = (w, OErr, []).
+Proof.
+  intros e c w Hc Hl. apply step_not_loaded; [exact Hc|]. right.
+  rewrite load_ctx_eq in Hl. cbn [ms_w fst] in Hl. destruct (ctx_of w); [discriminate Hl | reflexivity].
+Qed.
+
+(* ---------- add ---------- *)
+Lemma forallb_false_ex : forall A (f : A -> bool) l a, In a l -> f a = false -> forallb f l = false.
+Proof.
+  intros A f l a Hin Hf. destruct (forallb f l) eqn:E; [|reflexivity].
+  rewrite forallb_forall in E. rewrite (E a Hin) in Hf. discriminate Hf.
+Qed.
+
+Lemma cmd_add_nil : forall c s, cmd_add c [] s = (Err, s).
+Proof. reflexivity. Qed.
+
+Lemma cmd_add_missing : forall c args s a,
+  In a args -> exists_on_disk (ms_w s) a = false -> tracked (ms_w s) a = false ->
+  cmd_add c args s = (Err, s).
+Proof.
+  intros c args s a Hin Hd Ht. unfold cmd_add.
+  destruct args as [|a0 r]; [reflexivity|]. cbn [is_nil negb]. ev.
+  rewrite (forallb_false_ex _ _ _ a Hin); [reflexivity|]. rewrite Hd, Ht. reflexivity.
+Qed.
+
+Theorem add_nothing_refused : forall e w x,
+  w_inited w = true -> loaded w x -> step (ACmd e (CAdd [])) w = (w, OErr, []).
+Proof. intros e w x Hi Hx. apply (step_refused e _ w x); try assumption; [discriminate | reflexivity]. Qed.
+
+Theorem add_missing_refused : forall e w x args a,
+  w_inited w = true -> loaded w x ->
+  In a args -> exists_on_disk w a = false -> tracked w a = false ->
+  step (ACmd e (CAdd args)) w = (w, OErr, []).
+Proof.
+  intros e w x args a Hi Hx Hin Hd Ht. apply (step_refused e _ w x); try assumption; [discriminate|].
+  cbn [dispatch]. apply (cmd_add_missing x args _ a); assumption.
+Qed.
+
+(* ---------- rm ---------- *)
+Lemma cmd_rm_unknown : forall args s a,
+  In a args -> tracked (ms_w s) a = false -> is_dir (idx_of (ms_w s)) a = false ->
+  cmd_rm args s = (Err, s).
+Proof.
+  intros args s a Hin Ht Hd. unfold cmd_rm. ev.
+  rewrite (forallb_false_ex _ _ _ a Hin); [reflexivity|]. rewrite Ht, Hd. reflexivity.
+Qed.
+
+Theorem rm_unknown_refused : forall e w x args a,
+  w_inited w = true -> loaded w x ->
+  In a args -> tracked w a = false -> is_dir (idx_of w) a = false ->
+  step (ACmd e (CRm args)) w = (w, OErr, []).
+Proof.
+  intros e w x args a Hi Hx Hin Ht Hd. apply (step_refused e _ w x); try assumption; [discriminate|].
+  cbn [dispatch]. apply (cmd_rm_unknown args _ a); assumption.
+Qed.
+
+(* ---------- restore ---------- *)
+Lemma cmd_restore_nil : forall c st s, cmd_restore c st [] s = (Err, s).
+Proof. reflexivity. Qed.
+
+Lemma cmd_restore_nothing : forall c args s a,
+  In a args -> restore_targets (ms_w s) false [] a = [] ->
+  cmd_restore c false args s = (Err, s).
+Proof.
+  intros c args s a Hin Hn. unfold cmd_restore.
+  destruct args as [|a0 r]; [reflexivity|]. cbn [is_nil negb]. ev.
+  rewrite (forallb_false_ex _ _ _ (restore_targets (ms_w s) false [] a)); [reflexivity | | rewrite Hn; reflexivity].
+  apply in_map. exact Hin.
+Qed.
+
+Theorem restore_nothing_refused : forall e w x st,
+  w_inited w = true -> loaded w x -> step (ACmd e (CRestore st [])) w = (w, OErr, []).
+Proof. intros e w x st Hi Hx. apply (step_refused e _ w x); try assumption; [discriminate | reflexivity]. Qed.
+
+Theorem restore_unknown_refused : forall e w x args a,
+  w_inited w = true -> loaded w x ->
+  In a args -> restore_targets w false [] a = [] ->
+  step (ACmd e (CRestore false args)) w = (w, OErr, []).
+Proof.
+  intros e w x args a Hi Hx Hin Hn. apply (step_refused e _ w x); try assumption; [discriminate|].
+  cbn [dispatch]. apply (cmd_restore_nothing x args _ a); assumption.
+Qed.
+
+(* ---------- reset ---------- *)
+Definition reset_flags_ok (soft mixed hard : bool) : bool :=
+  (soft && negb (if soft || hard then false else mixed) && negb hard)
+  || (negb soft && (if soft || hard then false else mixed) && negb hard)
+  || (negb soft && negb (if soft || hard then false else mixed) && hard).
+
+(* exactly one of --soft / --hard, or neither together with --mixed *)
+Lemma reset_flags_ok_spec : forall soft mixed hard,
+  reset_flags_ok soft mixed hard = (xorb soft hard || (negb soft && negb hard && mixed)).
+Proof. intros [] [] []; reflexivity. Qed.
+
+(* the journal record the argument "HEAD@{n}" denotes, when every check passes *)
+Definition reset_target (w : world) (args : list bytes) : option (bytes * bytes) :=
+  match args with
+  | [a] =>
+      match reset_arg a with
+      | Some n =>
+          if N.leb n 9223372036854775807 then
+            match w_hlog w with
+            | Some hl =>
+                match parse_reflog hl with
+                | Some rs =>
+                    match get_record rs (N.to_nat (N.min n (N.of_nat (length rs)))) with
+                    | Some r => match r_id r with Some tid => Some (a, tid) | None => None end
+                    | None => None
+                    end
+                | None => None
+                end
+            | None => None
+            end
+          else None
+      | None => None
+      end
+  | _ => None
+  end.
+
+Lemma cmd_reset_refused : forall e c soft mixed hard args s,
+  reset_flags_ok soft mixed hard = false \/ reset_target (ms_w s) args = None ->
+  cmd_reset e c soft mixed hard args s = (Err, s).
+Proof.
+  intros e c soft mixed hard args s H. unfold cmd_reset. cbv zeta. rewrite ev_bind_guard.
+  unfold reset_flags_ok in H.
+  destruct H as [H|H]; [rewrite H; reflexivity|].
+  match goal with |- (if ?b then _ else _) = _ => destruct b end; [|reflexivity].
+  unfold reset_target in H.
+  destruct args as [|a [|b r]]; try reflexivity.
+  rewrite ev_bind_of_opt. destruct (reset_arg a) as [n|]; [|reflexivity].
+  rewrite ev_bind_guard. destruct (N.leb n 9223372036854775807); [|reflexivity].
+  rewrite ev_bind_getw, ev_bind_of_opt. destruct (w_hlog (ms_w s)) as [hl|]; [|reflexivity].
+  rewrite ev_bind_of_opt. destruct (parse_reflog hl) as [rs|]; [|reflexivity].
+  rewrite ev_bind_of_opt.
+  destruct (get_record rs (N.to_nat (N.min n (N.of_nat (length rs))))) as [rc|]; [|reflexivity].
+  rewrite ev_bind_of_opt. destruct (r_id rc); [discriminate H | reflexivity].
+Qed.
+
+Lemma reset_target_arity : forall w args, (forall a, args <> [a]) -> reset_target w args = None.
+Proof.
+  intros w args H. destruct args as [|a [|b r]]; try reflexivity. contradiction (H a). reflexivity.
+Qed.
+Lemma reset_target_bad_arg : forall w a, reset_arg a = None -> reset_target w [a] = None.
+Proof. intros w a H. unfold reset_target. rewrite H. reflexivity. Qed.
+Lemma reset_target_no_journal : forall w a, w_hlog w = None -> reset_target w [a] = None.
+Proof.
+  intros w a H. unfold reset_target. rewrite H.
+  destruct (reset_arg a) as [n|]; [destruct (N.leb n 9223372036854775807)|]; reflexivity.
+Qed.
+Lemma reset_target_beyond : forall w a n hl rs,
+  reset_arg a = Some n -> w_hlog w = Some hl -> parse_reflog hl = Some rs ->
+  (N.of_nat (length rs) <= n)%N -> reset_target w [a] = None.
+Proof.
+  intros w a n hl rs Ha Hh Hp Hn. unfold reset_target. rewrite Ha, Hh, Hp.
+  destruct (N.leb n 9223372036854775807); [|reflexivity].
+  unfold get_record. rewrite N.min_r by exact Hn. rewrite Nat2N.id, Nat.leb_refl. reflexivity.
+Qed.
+Lemma reset_target_zero_id : forall w a n hl rs r,
+  reset_arg a = Some n -> w_hlog w = Some hl -> parse_reflog hl = Some rs ->
+  get_record rs (N.to_nat (N.min n (N.of_nat (length rs)))) = Some r -> r_id r = None ->
+  reset_target w [a] = None.
+Proof.
+  intros w a n hl rs r Ha Hh Hp Hg Hr. unfold reset_target. rewrite Ha, Hh, Hp, Hg, Hr.
+  destruct (N.leb n 9223372036854775807); reflexivity.
+Qed.
+
+Theorem reset_refused : forall e w x soft mixed hard args,
+  w_inited w = true -> loaded w x ->
+  reset_flags_ok soft mixed hard = false \/ reset_target w args = None ->
+  step (ACmd e (CReset soft mixed hard args)) w = (w, OErr, []).
+Proof.
+  intros e w x soft mixed hard args Hi Hx H. apply (step_refused e _ w x); try assumption; [discriminate|].
+  cbn [dispatch]. apply cmd_reset_refused. exact H.
+Qed.
+
+Corollary reset_flags_refused : forall e w x soft mixed hard args,
+  w_inited w = true -> loaded w x ->
+  (soft = true /\ hard = true) \/ (soft = false /\ hard = false /\ mixed = false) ->
+  step (ACmd e (CReset soft mixed hard args)) w = (w, OErr, []).
+Proof.
+  intros e w x soft mixed hard args Hi Hx H. apply (reset_refused e w x); try assumption. left.
+  destruct H as [[-> ->]|(-> & -> & ->)]; [destruct mixed|]; reflexivity.
+Qed.
+
+Corollary reset_arity_refused : forall e w x soft mixed hard args,
+  w_inited w = true -> loaded w x -> (forall a, args <> [a]) ->
+  step (ACmd e (CReset soft mixed hard args)) w = (w, OErr, []).
+Proof.
+  intros e w x soft mixed hard args Hi Hx H. apply (reset_refused e w x); try assumption.
+  right. apply reset_target_arity. exact H.
+Qed.
+
+Corollary reset_bad_arg_refused : forall e w x soft mixed hard a,
+  w_inited w = true -> loaded w x -> reset_arg a = None ->
+  step (ACmd e (CReset soft mixed hard [a])) w = (w, OErr, []).
+Proof.
+  intros e w x soft mixed hard a Hi Hx H. apply (reset_refused e w x); try assumption.
+  right. apply reset_target_bad_arg. exact H.
+Qed.
+
+Corollary reset_beyond_refused : forall e w x soft mixed hard a n hl rs,
+  w_inited w = true -> loaded w x ->
+  reset_arg a = Some n -> w_hlog w = Some hl -> parse_reflog hl = Some rs ->
+  (N.of_nat (length rs) <= n)%N ->
+  step (ACmd e (CReset soft mixed hard [a])) w = (w, OErr, []).
+Proof.
+  intros e w x soft mixed hard a n hl rs Hi Hx Ha Hh Hp Hn. apply (reset_refused e w x); try assumption.
+  right. apply (reset_target_beyond w a n hl rs); assumption.
+Qed.
+
+Corollary reset_zero_id_refused : forall e w x soft mixed hard a n hl rs r,
+  w_inited w = true -> loaded w x ->
+  reset_arg a = Some n -> w_hlog w = Some hl -> parse_reflog hl = Some rs ->
+  get_record rs (N.to_nat (N.min n (N.of_nat (length rs)))) = Some r -> r_id r = None ->
+  step (ACmd e (CReset soft mixed hard [a])) w = (w, OErr, []).
+Proof.
+  intros e w x soft mixed hard a n hl rs r Hi Hx Ha Hh Hp Hg Hr. apply (reset_refused e w x); try assumption.
+  right. apply (reset_target_zero_id w a n hl rs r); assumption.
+Qed.
